@@ -662,7 +662,7 @@ PARTS = {
                                                          "fetchAndCachePackages (os.Chdir/Getwd on the virtual file system, net/url.Parse through the native parser on concrete URLs) are real"],
                                desc="package importing ../dep; the editor breaks dep's manifest (an import that cannot be fetched: unsupported scheme or missing directory), repairs it and "
                                     "changes the model, waiting for the watcher to go idle each time: watcher survives, process cwd is the package directory whenever idle, final output = one-shot output")),
-        (G, "gosym_part", dict(name="c20_import_interleaved", entry="internal/cmd.VerifC20Import", args_quick=(1, 1), args_thorough=(1, 2),
+        (G, "gosym_part", dict(name="c20_import_interleaved", entry="internal/cmd.VerifC20Import", args_quick=(1, 1), args_thorough=(1, 1),
                                extra_quick=("-replay-sample", "2", "-max-paths", "200000"), extra_thorough=("-replay-sample", "4", "-max-paths", "3000000"),
                                required_sites=("converged-to-one-shot-output", "cwd-is-package-dir-when-idle", "watcher-keeps-running"),
                                assumptions=C20_ASSUME,
@@ -800,3 +800,40 @@ CLAIMS = {
                      "reflexivity on equal-shaped copies, silence implies equal wire plan, symmetry of silence/error, warnings for partial changes.",
                 note="Type-level only (no named record/enum definitions, no protocol-level step changes yet); depth-bounded shapes; z3 and intrinsic models trusted."),
 }
+
+# Second round (after the seeded-change evaluation): what was added to each claim.
+CLAIMS_ADDENDA = {
+    "C01": "Added: (gosym) the C++ binary generator's emitted protocol writer/reader methods are read back and interpreted on a symbolic protocol shape and a symbolic batch length: "
+           "value step = one value; a stream write = non-empty blocks carrying exactly the items passed; End = the single 0 length; readers consume a length only when the block is exhausted.",
+    "C02": "Added: map cases over all 18 key primitives (object only for string keys, also in the runtime: pysym); NDJsonProtocolReader line look-ahead over protocol patterns with "
+           "several stream steps; (gosym) the emitted C++ flags/enum NDJSON converters denote the documented mapping and round-trip for a symbolic definition and a symbolic 64-bit value.",
+    "C03": "Added: the NDJSON converter and protocol-line parts (binary <-> NDJSON copies) are part of this check as well.",
+    "C04": "Added: the model has a fixed array with unnamed dimensions, a dynamic array, and a record of an imported namespace sharing its simple name with a local one; every backend "
+           "(C++, Python, MATLAB) embeds exactly the schema text once and readers refer to the writer's.",
+    "C05": "Added: nested conversions (optional / vector / batched stream wrappers, depth <= 2) for all integer pairs with a symbolic value; Inverse() is direction-swapping at every level and an "
+           "involution; per-version switches of every protocol method route each label (symbolic label order) to that version's wire format; three emitter defects that make the generated C++ "
+           "ill-formed are recorded known findings.",
+    "C06": "Added: the verdict class is independent of the reference shape (direct / closed alias / alias of alias / generic alias on either side; defect repaired by d518244), of the position of the "
+           "matching union case, and (known finding) of flat vs nested spelling of stream / vector item types.",
+    "C07": "Added: abandoned (closed) and failing stream iterables keep the step open in the generated Python reader.",
+    "C08": "Added: every relative import of every generated Python module resolves to a file written in the same run for all option x import-shape combinations; dtype registrations are "
+           "dependencies-first; GetAllChildReferences on every reference DAG (<= 4/5 namespaces) is duplicate-free and dependencies-first.",
+    "C09": "Added: the same rule violations, incl. reference cycles, reached through 10 ways of writing a type argument of local / imported generic types; a !stream in a type argument of a step "
+           "(defect repaired by e37f37f).",
+    "C10": "Added: six families of ill-formed type shapes at 9 (14) positions; LoadPackage terminates on every import graph over 3 packages (verifBounded); the hand-written expression parser "
+           "on EVERY token sequence of length 4 (6) over all 19 token kinds: terminates, no panic, exactly one of (expression, error) (infinite loop on '<atom> as <atom> [' repaired by d026dd8).",
+    "C11": "Added: 2-3 previous versions with symbolic compatibility per version and symbolic, possibly equal labels, with the real Validate / ValidateEvolution.",
+    "C12": "Added: every file written by the C++ (and, thorough, Python) generators for a 2 (3)-version model is byte-identical when any single map range iterates in a different order "
+           "(map iteration order is a path decision).",
+    "C13": "Added: local generic types used only as type arguments of imported generics, in all 120 (720) definition orders; normalizeComment equals the attached trailing comment run for every "
+           "head comment of <= 3 (4) lines.",
+    "C14": "Added: the NDJSON tagged/untagged decision of the Python generator (3-case unions); MATLAB and Python union classes number their cases consistently with what the binary "
+           "UnionSerializer writes.",
+    "C15": "Added: wire-different models have different schema texts (the C04 'determines' part) and every backend embeds exactly that text.",
+    "C16": "Added: bulk reads (read_view / read_bytearray, all three code paths incl. count larger than the buffer) return only bytes the stream holds.",
+    "C17": "Added: returned items (arrays, strings, containers of arrays) share no memory with the reader buffer and are unchanged by later reads / refills; the emitted C++ stream writer's block structure.",
+    "C18": "Added: termination as an obligation on every graph; every import-list order; the namespace graph built by parsePackageNamespaces mirrors the import graph.",
+    "C19": "Added: all 2 x 25 nestings of {+,-,*,/,**} over three operands plus 15 unary-minus placements on symbolic operands ((-x) ** y repaired by 641186f).",
+}
+for _k, _v in CLAIMS_ADDENDA.items():
+    CLAIMS[_k]["text"] = CLAIMS[_k]["text"] + " " + _v
